@@ -17,6 +17,7 @@ def dispatch (j : Json) : Json :=
   | "enc.failsafe" => cmdEncFailsafe j
   | "enc.open" => cmdEncOpen j
   | "reader.history" => cmdReaderHistory j
+  | "archive.read" => cmdArchiveRead j
   | c => Json.mkObj [("err", Json.str ("unknown-cmd:" ++ c))]
 
 partial def loop (h : IO.FS.Stream) (out : IO.FS.Stream) : IO Unit := do
